@@ -150,6 +150,13 @@ PSEUDO = [
     ("STRUCT", "s\tstruct\nf\tds 1\ns\tendstruct", ""), ("STRUCT-arg", "s\tstruct {a}\ns\tendstruct {b}", "ab"), ("STRUCT-nolabel", "\tstruct\n\tendstruct", ""),
     ("ENDSTRUCT", "\tendstruct", ""), ("UNION", "s\tstruct\nu\tunion\na\tds 1\nu\tendunion\ns\tendstruct", ""), ("ENDUNION", "\tendunion", ""),
     ("STRUCT-open", "s\tstruct\nf\tds 1", ""), ("STRUCT-use", "s\tstruct\nf\tds {a}\ns\tendstruct\nv\ts", "a"), ("DOTTEDSTRUCTS", "\tdottedstructs {a}", "a"),
+    ("STRUCT-arr1", "s\tstruct\nf\tds.b 1\ns\tendstruct\nv\ts [{n}]\n\tdc.b v_len", "n", "68000"),
+    ("STRUCT-arr2", "s\tstruct\nf\tds.b 1\ns\tendstruct\nv\ts [2],[{n}]\n\tdc.b v_len", "n", "68000"),
+    ("STRUCT-arr3", "s\tstruct\nf\tds.b 1\ng\tds.w 1\ns\tendstruct\nv\ts [2],[2],[2]", "", "68000"),
+    ("STRUCT-arr3n", "s\tstruct\nf\tds.b 1\ns\tendstruct\nv\ts [{n}],[3],[{n}]", "n", "68000"),
+    ("STRUCT-arr4", "s\tstruct\nf\tds.b 1\ns\tendstruct\nv\ts [2],[1],[2],[{n}]", "n", "68000"),
+    ("STRUCT-arr-z80", "s\tstruct\nf\tdb ?\ns\tendstruct\nv\ts [3],[2],[2]\n\tdb 1", "", "z80"),
+    ("STRUCT-arr-dotted", "\tdottedstructs on\ns\tstruct\nf\tds.b 1\nu\tunion\na\tds.b 2\nb\tds.b 1\nu\tendunion\ns\tendstruct\nv\ts [2],[2],[3]", "", "68000"),
     ("STRUCT-org", "s\tstruct\n\torg {a}\n\talign {b}\ns\tendstruct", "ab"), ("STRUCT-seg", "s\tstruct\n\tsegment {g}\ns\tendstruct\n\tnop", "g"),
     ("RADIX", "\tradix {a}\nx\tequ 10", "a"), ("OUTRADIX", "\toutradix {a}\n\tmessage \"\\{{255}}\"", "a"),
     ("CHARSET", "\tcharset {a},{b},{a}", "ab"), ("CHARSET1", "\tcharset {a}", "a"), ("CHARSET0", "\tcharset", ""), ("CHARSET-s", "\tcharset {s},{s}", "s"),
@@ -221,7 +228,8 @@ def gen_grammar(rng, tier):
     """yields dict(kind='asl', cls=..., src=bytes, tag=...)"""
     cases = []
     per = 3 if tier == "quick" else 24
-    for name, tmpl, slots in PSEUDO:
+    for ent in PSEUDO:
+        name, tmpl, slots = ent[:3]
         k = per if slots else (1 if tier == "quick" else 4)
         seen = set()
         for j in range(k):
@@ -236,7 +244,7 @@ def gen_grammar(rng, tier):
             if body in seen:
                 continue
             seen.add(body)
-            cpu = rng.choice(CPUS)
+            cpu = ent[3] if len(ent) > 3 else rng.choice(CPUS)
             label = rng.random() < 0.4
             if label and body.startswith("\t") and "\n" not in body:
                 body = "lbl" + body
@@ -508,6 +516,7 @@ TOOLS = [
     # (model tool id, binary, args builder, cpu seconds)
     ("plist", "plist", lambda p, o: ["-q", p]),
     ("pbind", "pbind", lambda p, o: [p, o + ".p"]),
+    ("pbindf", "pbind", lambda p, o: ["-f", "0x7d", p, o + ".p"]),     # a filter that selects none of the generated records
     ("p2bin", "p2bin", lambda p, o: ["-r", "0-$fff", p, o + ".bin"]),
     ("p2bina", "p2bin", lambda p, o: [p, o + ".bin"]),
     ("p2hex", "p2hex", lambda p, o: ["-r", "0-$fff", p, o + ".hex"]),
